@@ -2,6 +2,7 @@
 (* Trace judge for C16.  Input: ndjson (TRACE_FILE); one trace = one Response object.        *)
 (* line = [t, i, op, k, h, vw, a, exc, ht, nh, nhh, nhb, vt, vp, rp, rb, hasexp, exp]         *)
 (*   op  : "init" | "get_view" | view mutators | "assign" | "del_prop" | "direct_edit"        *)
+(*         | "sync" | "adopt" (repository-test sessions, bookkeeping only)                    *)
 (*         | "sc_assign" | "sc_del"                                                           *)
 (*   k   : view kind "set"|"cc"|"csp"|"cr"|"wa"|"mtp"  (or the scalar class for sc ops)        *)
 (*   h   : index of the header the step is about; vw: view slot (0 = none)                    *)
@@ -202,6 +203,13 @@ ScStep(s, ln) ==
 
 Step(s, ln) ==
   CASE ln.op = "init" -> [c |-> "ok", d |-> FALSE, s |-> [views |-> NoViews, ht |-> ln.ht2, nh |-> ln.nh2]]
+    \* bookkeeping lines of the repository-test binding (never a verdict):
+    \* "sync"  = the header store was edited directly since the last line (live views are now stale);
+    \* "adopt" = an object constructed by the caller is followed from here on; it is not a view of any header
+    [] ln.op = "sync"  -> [c |-> "ok", d |-> FALSE, s |-> [views |-> s.views, ht |-> ln.ht2, nh |-> ln.nh2]]
+    [] ln.op = "adopt" -> [c |-> "ok", d |-> FALSE,
+                           s |-> [views |-> PutView(s.views, ln.vw, [k |-> ln.k, h |-> ln.h, v |-> ln.vp, live |-> FALSE]),
+                                  ht |-> ln.ht2, nh |-> ln.nh2]]
     [] ln.op = "get_view" -> GetStep(s, ln)
     [] ln.op \in {"assign", "del_prop", "direct_edit"} -> AssignStep(s, ln)
     [] ln.op \in {"sc_assign", "sc_del"} -> ScStep(s, ln)
